@@ -23,7 +23,7 @@ PROP = "C18"
 LEVEL = "exploration"
 RULE = ("seeded histories of `with` blocks (one or two objects on the chip) containing mac/name/show_pa_level/pa_level/"
         "hop_channel()/channel= assignments (valid and invalid) and advertise() calls with single buffers and chunk "
-        "lists whose total sits around the capacity boundary (-2..+2), the same list object of chunk() results advertised again, a sibling RF24 object "
+        "lists whose total sits around the capacity boundary (-2..+2), blocks left (also by an exception) and entered again in mid-history, the same list object of chunk() results advertised again, a sibling RF24 object "
         "that re-configures itself (C03 alphabet) and whose send() to an absent peer fails right before it hands the radio back; MCU personalities from 0 to 400 us per SPI transaction; thorough adds the complete grid name length "
         "0..20 x show_pa_level x PA level x chunk length. Every on-air payload is decoded by an independent spec-derived "
         "codec for the channel actually tuned. Non-trivial: at least one advertisement was transmitted; distinct = "
@@ -110,6 +110,13 @@ def make(i, base_seed, tier):
             ops.append(_rand_adv(rng, rng.choice([18, 15, 13, 10, 5, 0, free])))
     ops.append({"op": "exit", "who": inside})
     xr = stream(seed, "ext")
+    if xr.random() < 0.3:
+        # the object's own block is left and entered again in mid-history - in half of the cases left by an exception (an application
+        # error inside the block, a rejected advertise()): the documented reset of name / show_pa_level happens on every exit
+        for _ in range(xr.randint(1, 2)):
+            k_ = xr.randrange(1, len(ops))
+            who = [o_["who"] for o_ in ops[:k_] if o_["op"] == "enter"][-1]
+            ops[k_:k_] = [{"op": "exit", "who": who, "exc": xr.random() < 0.5}, {"op": "enter", "who": who}]
     # history: the application advertises the same list object of chunk() results again (repeatedly advertised sensor data)
     k_ = 0
     while k_ < len(ops):
@@ -182,7 +189,12 @@ def _run(scn, w, res):
         if o == "exit":
             if cur is None or op["who"] != cur:
                 continue
-            objs[cur].__exit__(None, None, None)
+            if op.get("exc"):
+                err = ValueError("application error inside the with block")
+                objs[cur].__exit__(ValueError, err, None)
+                sim.count("block_left_by_exception")
+            else:
+                objs[cur].__exit__(None, None, None)
             st[cur] = {"name": None, "show": False}
             cur = None
             continue
